@@ -55,8 +55,8 @@ THEOREMS = [
          clause="balance within a few percent at every reported time in the solidification stage and in 2D: enthalpy "
                 "accounting on real recorded fields"),
     dict(name="monitored:boundary_fluxes_applied", strength="monitored",
-         clause="the flux actually applied at the top and at the bottom (recovered from consecutive recorded fields) "
-                "equals the boundary condition, 1D and 2D, both stages"),
+         clause="the flux actually applied at the top, at the bottom and (jacket) at the side wall, recovered from "
+                "consecutive recorded fields, equals the boundary condition, 1D and 2D, both stages"),
     dict(name="Snow.C02.nonvacuous", strength="nonvacuity",
          clause="hypotheses of nucleation_adiabatic hold for the default solution at -10 C"),
 ]
@@ -69,6 +69,11 @@ TRUSTED = [
     "cell volumes of the reported grid, fluxes recomputed from the reported fields",
 ]
 ASSUMPTIONS = [
+    "known finding K8 (open): the solidification scheme loses rho*Dh*w_i per node that crosses the liquidus after "
+    "nucleation; the predicate reports it under its own key only when the whole excess is located at those node updates "
+    "(balance holds without them); reproducer corpus/C02/k8_liquidus_crossing_1D_shelf_50mm.json",
+    "every case is built to complete: a raise of the real code is a failure (raises|site|class); the time step the "
+    "harness derives must be the one of the reported stamps, otherwise observation_broken",
     "nucleation_adiabatic(_0D1D) assume depression = k_f/M_s * mass_solute/mass_water (hdep) -- a relation between "
     "entries of Snowing.const established by calculateDerived (C07.DerivedOK.hdep derives it from the derived-constant "
     "relations; C02.nonvacuous instantiates every hypothesis on the default configuration)",
@@ -113,6 +118,11 @@ def cases(rng, tier):
     for c in u.standard_cases(tier, core.env_seed()):
         yield c
     # object / dict histories: the balance of a run is evaluated against the run's OWN coefficients
+    if tier != "quick":
+        # known finding K8 in 2D and for shelf/jacket (the 1D reproducer is corpus/C02/k8_*.json)
+        yield u._base("shelf", 0.06, 0.12, 400, 9000, start=20, stop=-60, rate=0.5)
+        yield u._base("VISF", 0.05, 0.1, 400, 6000, dim="spatial_1D", start=20, stop=-60, rate=0.5,
+                      visf=dict(t_vac_start=0.01, t_vac_duration=0.08))
     a = u._base("jacket", 0.015, 0.03, 1000, 350, jacket=dict(air_gap=1e-3, lambda_air=0.025))
     b = u._base("jacket", 0.015, 0.03, 1000, 350, jacket=dict(air_gap=1e-5, lambda_air=0.025))
     yield dict(b, kind="shared_k", before=[a])          # two jacket runs sharing one k dict, other air gap
@@ -154,9 +164,19 @@ def _site(case):
 
 def predicates(case, impl):
     out = []
-    if impl.get("raise"):
-        return out
     site0 = _site(case)
+    if impl.get("raise"):
+        # every case of this check is built to complete (programme long enough by construction): a raise of the
+        # real code is a failure of the run, whatever the model does
+        out.append(Failure(clause="total", key=f"raises|{site0}|{impl['raise']}",
+                           detail=f"the run raises {impl['raise']} ({impl.get('stage')}) on a process that is long "
+                                  f"enough to nucleate and solidify"))
+        return out
+    if impl.get("dt_consistent") is False:
+        out.append(Failure(clause="observation", key=f"observation_broken|{site0}|time-step",
+                           detail="the reported time stamps are not multiples of the time step this harness derives from "
+                                  "the constants (dt formula of the code changed?): the boundary-flux clauses cannot be "
+                                  "evaluated"))
     if impl.get("time") and impl.get("t_tot") is not None and impl.get("dt"):
         tmax = max(impl["time"]) * 3600.0
         if tmax > impl["t_tot"] + 2 * impl["dt"] + 1e-9 * max(1.0, impl["t_tot"]):
@@ -177,7 +197,19 @@ def predicates(case, impl):
     site = _site(case)
     cfg = case["config"]
     aspect = "default-aspect" if abs(case["height"] / case["diameter"] - 1) < 1e-9 else "off-aspect"
-    if e["ratio"] > 1.0:
+    if e["ratio"] > 1.0 and e.get("ratio_without_crossing", 9.9) <= 1.0 and e.get("crossings", 0) > 0:
+        # known finding K8: the whole excess sits at nodes that cross the liquidus after nucleation (free ice)
+        plain = "_run_2D" if case["dim"] == "spatial_2D" else "_run_1D"
+        out.append(Failure(
+            clause="energy_balance", key=f"energy_balance|{plain}|liquidus-crossing-free-ice",
+            detail=(f"enthalpy change {e['dH']:.4g} J vs boundary heat {e['Q']:.4g} J at reported row {e['row']}: |dH-Q| is "
+                    f"{e['ratio']:.2f} x the tolerance; {e['cross']:.4g} J of it disappeared at the {e['crossings']} node "
+                    f"updates in which a node crossed the liquidus after nucleation (step taken with the capacity of the "
+                    f"unfrozen state, node then given the equilibrium ice of its new temperature); without that term the "
+                    f"balance holds ({e['ratio_without_crossing']:.2f} x the tolerance); "
+                    f"{100 * (e.get('unsupercooled_at_nucleation') or 0):.0f} % of the nodes were not supercooled at nucleation; "
+                    f"final dH/Q = {e['final_dH_over_Q']}")))
+    elif e["ratio"] > 1.0:
         out.append(Failure(
             clause="energy_balance", key=f"energy_balance|{site}|{cfg}|{aspect}",
             detail=(f"enthalpy change {e['dH']:.4g} J vs boundary heat {e['Q']:.4g} J at reported row {e['row']}: "
@@ -198,6 +230,13 @@ def predicates(case, impl):
             detail=(f"{bf['stage']} stage, reported row {bf['row']}: the heat flux applied at the bottom, inferred from two "
                     f"consecutive fields, is {bf['q_applied']:.6g} W/m2; K_shelf*(T_shelf - T_bottom) = {bf['q_expected']:.6g} "
                     f"W/m2 (T_bottom {bf['T_bottom']:.3f} K, T_shelf {bf['T_shelf']:.3f} K)")))
+    wf = impl.get("wallflux")
+    if wf and wf.get("n") and wf["score"] > 1.0:
+        out.append(Failure(
+            clause="wall_boundary_flux", key=f"wall_boundary_flux|{site}|{cfg}|{wf['stage']}",
+            detail=(f"{wf['stage']} stage, reported row {wf['row']}: the heat flux applied at the side wall (mid height), "
+                    f"inferred from two consecutive fields, is {wf['q_applied']:.6g} W/m2; K_wall*(T_shelf - T_wall) = "
+                    f"{wf['q_expected']:.6g} W/m2 with the run's own K_wall = {wf['K_wall']:.5g}")))
     if abs(e["jump_dH"]) > 1e-6 * max(e["jump_scale"], 1e-30):
         out.append(Failure(
             clause="nucleation_adiabatic", key=f"nucleation_adiabatic|{site}|{cfg}",
